@@ -4,7 +4,6 @@ import (
 	"fmt"
 	"go/constant"
 	"go/types"
-	"sort"
 	"strings"
 
 	"cvsslint/internal/facts"
@@ -25,7 +24,6 @@ type scoreKit struct {
 	mathFn map[string]*types.Func
 	round  map[string]*types.Func // "roundUp", "round1", "round2"
 	cache  map[string][]*ir.Leaf
-	errs   []string
 
 	scoreFns []*types.Func
 }
@@ -645,15 +643,6 @@ func (k *scoreKit) validChain(rule string) {
 			c.Ok(rule, fname(m), k.e.P.Pos(m.Pos()), fmt.Sprintf("%d nil-returning path(s), each under receiver != nil and lower-level GetError() == nil", nNil))
 		}
 	}
-}
-
-func sortedLeafStrings(ls []*ir.Leaf) []string {
-	var out []string
-	for _, l := range ls {
-		out = append(out, l.String())
-	}
-	sort.Strings(out)
-	return out
 }
 
 var _ = strings.Join
